@@ -27,7 +27,8 @@ MirrorVerdicts(M, n) ==
 SelfVerdicts(M, n) ==
     UNION {{<<c, x, x, 0>> : c \in SelfBad(M[x][x])} : x \in 1..n}
 TripleVerdicts(M, n) ==
-    UNION {IF \A y, z \in 1..n : TripleBad(M[x][y], M[y][z], M[x][z]) = {} THEN {}
+    IF TriplesOK(M, n) THEN {}
+    ELSE UNION {IF \A y, z \in 1..n : TripleBad(M[x][y], M[y][z], M[x][z]) = {} THEN {}
            ELSE LET W(c) == {w \in (1..n) \X (1..n) : c \in TripleBad(M[x][w[1]], M[w[1]][w[2]], M[x][w[2]])}
                 IN  UNION {IF W(c) = {} THEN {} ELSE LET w == CHOOSE w \in W(c) : TRUE IN {<<c, x, w[1], w[2]>>} :
                            c \in {"Trans_lt", "Trans_eq", "Cong_lt_left", "Cong_lt_right"}}
